@@ -423,6 +423,17 @@ def monitor(history, events, check_faults=True):
                     owner_of[pay] = own
                     src_of[pay] = (s, ident)
                     order.setdefault((s, own), []).append(pay)
+        elif f[0] == "SB":
+            # burst of single-task batches (implementation-only histories)
+            s, count, first, own = int(f[1]), int(f[2]), int(f[3]), int(f[4])
+            for k in range(count):
+                ident, pay = first + k, "b%d" % (first + k)
+                last_high_src[s] = ident + 1
+                recv_idx.setdefault((s, ident), idx)
+                received.setdefault((s, ident), set()).add(pay)
+                owner_of[pay] = own
+                src_of[pay] = (s, ident)
+                order.setdefault((s, own), []).append(pay)
         elif f[0] == "A":
             t, w = int(f[1]), int(f[2])
             for pid, pay in fwd_by_t.get(t, []):
@@ -638,7 +649,8 @@ def engine(ck, prop, tier, seed, gen_kwargs, props, n_quick, n_thorough, proof_o
         err, impl = run_impl(part, prop.lower())
         if err:
             ck.obligation("correspondence run", False, err)
-            ck.violation({"kind": "harness", "log": err, "broken": "routing harness"}, "harness failed: " + err[:300], no_input=True)
+            if not V.crash_violation(ck, err, os.path.join(V.WORK, "rt_%s.impl" % prop.lower()), part, lambda h: run_impl([h], prop.lower() + "c")[0], "routing harness (real streamRouting pairs + shard manager)"):
+                ck.violation({"kind": "harness", "log": err, "broken": "routing harness"}, "harness failed: " + err[:300], no_input=True)
             return
         err, model = run_model(exe, part)
         if err:
@@ -732,6 +744,9 @@ def replay(data):
         return 1
     h = data["history"]
     err, impl = run_impl([h], "replay")
+    if data.get("kind") == "crash":
+        print(err or "the process survives this history on the current tree")
+        return 1 if err else 0
     err2, model = run_model(exe, [h])
     if err or err2:
         print(err or err2)
